@@ -4,6 +4,7 @@ import (
 	"encoding/binary"
 	"fmt"
 	"net"
+	"time"
 
 	"github.com/pion/stun/v3"
 )
@@ -234,3 +235,5 @@ func mustUDPAddr(s string) *net.UDPAddr {
 }
 
 func ustr(a *net.UDPAddr) string { return akey(a.IP, a.Port) }
+
+func secDur(s int) time.Duration { return time.Duration(s) * time.Second }
